@@ -96,6 +96,25 @@ def run(ctx, rep):
             d = dp.of_operand(t['args'][1], (bi, 10 ** 6)) | dp.of_operand(t['args'][2], (bi, 10 ** 6))
             srcs = sorted({x[1] for x in d if x[0] == 'fn' and any(x[1].endswith(g) for g in GOOD_SOURCES)})
             ok = bool(srcs)
+            if not ok and any(x[0] == 'in' for x in d):
+                # the address is handed in by the caller (a helper): decided at the call sites of the helper
+                me = b.path.rsplit('::{closure', 1)[0]
+                sites = []
+                for cb in f.body_list:
+                    if '::tests::' in cb.path:
+                        continue
+                    cdp = None
+                    for cbi, ct in cb.calls():
+                        if ct.get('fn') != me:
+                            continue
+                        cdp = cdp or Deps(P, cb)
+                        cd = set()
+                        for a in ct['args']:
+                            cd |= cdp.of_operand(a, (cbi, 10 ** 6))
+                        sites.append(sorted({x[1] for x in cd if x[0] == 'fn' and any(x[1].endswith(g) for g in GOOD_SOURCES)}))
+                if sites and all(sites):
+                    ok = True
+                    srcs = sorted({y for x in sites for y in x})
             rep.ob('C03.3', 'release in %s at %s' % (short(b.path), b.where(bi)), ok,
                    'cluster/count derive from %s' % [s.split('::')[-1] for s in srcs])
             if not ok:
@@ -117,6 +136,8 @@ def run(ctx, rep):
                           'racing operations on one guest cluster the second overwrites the entry of the first, whose host cluster '
                           'keeps its refcount with no reference (leak), or both release the same cluster (%s)' % (fn, mname, why))
     rep.floor('mutations through slice write guards', ncta, 6)
+    from . import rollback
+    rollback.report(f, P, rep, 'C03.7', ('release',))
     zc = zero_count_releases(f, P)
     for (fn, where, ok) in zc:
         rep.ob('C03.3', 'release count in %s at %s' % (fn, where), ok, 'count is not the constant 0 on any path')
